@@ -1,12 +1,12 @@
 package acmelib
 
 import (
+	"cmp"
 	"io"
 	"slices"
 	"strings"
 
 	acmelibv1 "github.com/squadracorsepolito/acmelib/proto/gen/go/acmelib/v1"
-	"golang.org/x/exp/maps"
 	"google.golang.org/protobuf/encoding/protojson"
 	"google.golang.org/protobuf/encoding/prototext"
 	"google.golang.org/protobuf/proto"
@@ -99,6 +99,14 @@ type saver struct {
 	refSigUnits      map[EntityID]*SignalUnit
 	refSigEnums      map[EntityID]*SignalEnum
 	refAttributes    map[EntityID]Attribute
+
+	// referenced entities in order of first use
+	canIDBuilderOrder []*CANIDBuilder
+	nodeOrder         []*Node
+	sigTypeOrder      []*SignalType
+	sigUnitOrder      []*SignalUnit
+	sigEnumOrder      []*SignalEnum
+	attributeOrder    []Attribute
 }
 
 func newSaver() *saver {
@@ -162,39 +170,39 @@ func (s *saver) saveNetwork(net *Network) *acmelibv1.Network {
 		pNet.Buses = append(pNet.Buses, s.saveBus(bus))
 	}
 
-	canIDBuilders := maps.Values(s.refCANIDBuilders)
-	slices.SortFunc(canIDBuilders, func(a, b *CANIDBuilder) int { return strings.Compare(a.name, b.name) })
+	// stable sorts: entities with equal keys stay in order of first use
+	canIDBuilders := s.canIDBuilderOrder
+	slices.SortStableFunc(canIDBuilders, func(a, b *CANIDBuilder) int { return strings.Compare(a.name, b.name) })
 	for _, canIDBuilder := range canIDBuilders {
 		pNet.CanidBuilders = append(pNet.CanidBuilders, s.saveCANIDBuilder(canIDBuilder))
 	}
 
-	nodes := maps.Values(s.refNodes)
-	slices.SortFunc(nodes, func(a, b *Node) int { return int(a.id - b.id) })
+	nodes := s.nodeOrder
+	slices.SortStableFunc(nodes, func(a, b *Node) int { return cmp.Compare(a.id, b.id) })
 	for _, node := range nodes {
 		pNet.Nodes = append(pNet.Nodes, s.saveNode(node))
 	}
 
-	sigTypes := maps.Values(s.refSigTypes)
-	slices.SortFunc(sigTypes, func(a, b *SignalType) int { return strings.Compare(a.name, b.name) })
+	sigTypes := s.sigTypeOrder
+	slices.SortStableFunc(sigTypes, func(a, b *SignalType) int { return strings.Compare(a.name, b.name) })
 	for _, sigType := range sigTypes {
 		pNet.SignalTypes = append(pNet.SignalTypes, s.saveSignalType(sigType))
 	}
 
-	sigUnits := maps.Values(s.refSigUnits)
-	slices.SortFunc(sigUnits, func(a, b *SignalUnit) int { return strings.Compare(a.name, b.name) })
+	sigUnits := s.sigUnitOrder
+	slices.SortStableFunc(sigUnits, func(a, b *SignalUnit) int { return strings.Compare(a.name, b.name) })
 	for _, sigUnit := range sigUnits {
 		pNet.SignalUnits = append(pNet.SignalUnits, s.saveSignalUnit(sigUnit))
 	}
 
-	sigEnums := maps.Values(s.refSigEnums)
-	slices.SortFunc(sigEnums, func(a, b *SignalEnum) int { return strings.Compare(a.name, b.name) })
+	sigEnums := s.sigEnumOrder
+	slices.SortStableFunc(sigEnums, func(a, b *SignalEnum) int { return strings.Compare(a.name, b.name) })
 	for _, sigEnum := range sigEnums {
 		pNet.SignalEnums = append(pNet.SignalEnums, s.saveSignalEnum(sigEnum))
 	}
 
-	attributes := maps.Values(s.refAttributes)
-	slices.SortFunc(attributes, func(a, b Attribute) int { return strings.Compare(a.Name(), b.Name()) })
-	for _, att := range attributes {
+	slices.SortStableFunc(s.attributeOrder, func(a, b Attribute) int { return strings.Compare(a.Name(), b.Name()) })
+	for _, att := range s.attributeOrder {
 		pNet.Attributes = append(pNet.Attributes, s.saveAttribute(att))
 	}
 
@@ -229,7 +237,7 @@ func (s *saver) saveAttributeAssignments(attAss []*AttributeAssignment) []*acmel
 
 		pAttAss = append(pAttAss, pTmpAttAss)
 
-		s.refAttributes[tmpAtt.EntityID()] = tmpAtt
+		addOrderedRef(s.refAttributes, &s.attributeOrder, tmpAtt.EntityID(), tmpAtt)
 	}
 
 	return pAttAss
@@ -259,7 +267,7 @@ func (s *saver) saveBus(bus *Bus) *acmelibv1.Bus {
 	}
 
 	entID := bus.canIDBuilder.entityID
-	s.refCANIDBuilders[entID] = bus.canIDBuilder
+	addOrderedRef(s.refCANIDBuilders, &s.canIDBuilderOrder, entID, bus.canIDBuilder)
 	pBus.CanidBuilderEntityId = string(entID)
 
 	return pBus
@@ -317,7 +325,7 @@ func (s *saver) saveNodeInterface(nodeInt *NodeInterface) *acmelibv1.NodeInterfa
 	pNodeint.Number = int32(nodeInt.number)
 
 	nodeEntID := nodeInt.node.entityID
-	s.refNodes[nodeEntID] = nodeInt.node
+	addOrderedRef(s.refNodes, &s.nodeOrder, nodeEntID, nodeInt.node)
 	pNodeint.NodeEntityId = nodeEntID.String()
 
 	for _, msg := range nodeInt.SentMessages() {
@@ -493,7 +501,7 @@ func (s *saver) saveStandardSignal(stdSig *StandardSignal) *acmelibv1.StandardSi
 	pStdSig := new(acmelibv1.StandardSignal)
 
 	typeEntID := stdSig.typ.entityID
-	s.refSigTypes[typeEntID] = stdSig.typ
+	addOrderedRef(s.refSigTypes, &s.sigTypeOrder, typeEntID, stdSig.typ)
 	pStdSig.TypeEntityId = string(typeEntID)
 
 	if stdSig.unit == nil {
@@ -501,7 +509,7 @@ func (s *saver) saveStandardSignal(stdSig *StandardSignal) *acmelibv1.StandardSi
 	}
 
 	unitEntID := stdSig.unit.entityID
-	s.refSigUnits[unitEntID] = stdSig.unit
+	addOrderedRef(s.refSigUnits, &s.sigUnitOrder, unitEntID, stdSig.unit)
 	pStdSig.UnitEntityId = string(unitEntID)
 
 	return pStdSig
@@ -511,7 +519,7 @@ func (s *saver) saveEnumSignal(enumSig *EnumSignal) *acmelibv1.EnumSignal {
 	pEnumSig := new(acmelibv1.EnumSignal)
 
 	entID := enumSig.enum.entityID
-	s.refSigEnums[entID] = enumSig.enum
+	addOrderedRef(s.refSigEnums, &s.sigEnumOrder, entID, enumSig.enum)
 	pEnumSig.EnumEntityId = string(entID)
 
 	return pEnumSig
